@@ -2,6 +2,8 @@ package main
 
 import (
 	"fmt"
+	"os"
+	"runtime/debug"
 	"go/types"
 	"sort"
 	"strings"
@@ -26,6 +28,9 @@ func verifyFunction(ld *Loaded, sp *Specs, key string) (out *FuncVC) {
 	defer func() {
 		if r := recover(); r != nil {
 			rep.Error = fmt.Sprint(r)
+			if os.Getenv("GOVC_DEBUG") != "" {
+				fmt.Fprintf(os.Stderr, "panic in %s: %v\n%s\n", key, r, debug.Stack())
+			}
 		}
 		rep.Warnings = vc.warnings
 	}()
@@ -81,6 +86,10 @@ func verifyFunction(ld *Loaded, sp *Specs, key string) (out *FuncVC) {
 	}
 	for _, fv := range fn.FreeVars {
 		bindInput(fv.Name(), fv.Type(), fv)
+		// a captured variable is referenced through a pointer that is never nil
+		if kindOf(fv.Type()) == KPtr {
+			vc.assertGlobal("(> " + fr.vals[fv].L[0].S + " 0)")
+		}
 	}
 	if ct.Implements != "" {
 		// interface parameter names alias the implementation's parameters (receiver excluded)
@@ -164,6 +173,11 @@ func verifyFunction(ld *Loaded, sp *Specs, key string) (out *FuncVC) {
 
 func (x *Exec) frameObligations(fr *Frame, ct *Contract, fin *State, reach *Term) {
 	vc := x.vc
+	for _, d := range ct.Modifies {
+		if d == "everything" {
+			return // e.g. a wrapper that invokes an arbitrary callback
+		}
+	}
 	mods := map[string]bool{}
 	for _, d := range ct.Modifies {
 		if rec, ok := x.sp.Records[d]; ok {
@@ -243,6 +257,9 @@ func (x *Exec) frameObligations(fr *Frame, ct *Contract, fin *State, reach *Term
 			f = bigFamily
 		}
 		init := x.hp.heapGet(fr.entry, f)
+		if cur.Sort == "" || init.Sort == "" {
+			panic("frame: family " + k + " has no sort (cur=" + cur.S + ", init=" + init.S + ")")
+		}
 		if cur.S == init.S {
 			continue
 		}
